@@ -439,6 +439,38 @@ func (ex *Exec) initIntrinsics() {
 			return v
 		}
 	}
+	// go/format.Node (printer contract PC): an uninterpreted function of the restored ast. It writes the
+	// tag "AST<k>;" where k counts the format.Node calls of this path, through the real io.Writer, and
+	// returns a nil error (or, when the harness asked for it with vfFormatFailAt(k), an error).
+	in["go/format.Node"] = func(ex *Exec, fr *Frame, a []Value) Value {
+		k := ex.formatCalls
+		ex.formatCalls++
+		if ex.formatFailAt == k {
+			return errorIface(ex, ex.cstr("format: injected failure"))
+		}
+		w := a[0].(IfaceV)
+		data := ex.cstr(fmt.Sprintf("AST%d;", k))
+		bs := ex.convert(types.Typ[types.String], types.NewSlice(types.Typ[types.Uint8]), data)
+		var wm *ssaFunction
+		ms := ex.prog.MethodSets.MethodSet(w.t)
+		for i := 0; i < ms.Len(); i++ {
+			if ms.At(i).Obj().Name() == "Write" {
+				wm = ex.prog.MethodValue(ms.At(i))
+			}
+		}
+		if wm == nil {
+			ex.unsupported("format.Node: writer without Write method")
+		}
+		ex.call(fr, &FuncV{fn: wm}, []Value{w.v, bs}, nil)
+		return IfaceV{}
+	}
+	in["vf:vfPrintOf"] = func(ex *Exec, fr *Frame, a []Value) Value {
+		return ex.cstr(fmt.Sprintf("AST%d;", ex.concInt(a[0], "vfPrintOf k")))
+	}
+	in["vf:vfFormatFailAt"] = func(ex *Exec, fr *Frame, a []Value) Value {
+		ex.formatFailAt = int(ex.concInt(a[0], "vfFormatFailAt"))
+		return nil
+	}
 	in["sort.Slice"] = func(ex *Exec, fr *Frame, a []Value) Value { ex.sortSlice(fr, a[0], a[1]); return nil }
 	in["sort.SliceStable"] = in["sort.Slice"]
 	in["sort.Strings"] = func(ex *Exec, fr *Frame, a []Value) Value {
